@@ -289,16 +289,28 @@ variable (M : Nat)
 
 /-- `collect_rollback_data(&self, desired)`: `None` when the two are equal (`PartialEq`), else the diff.
 Refusals (Rust panics): `assert!(hp >= self.hp)`; `self.stack[..sp]` when the CURRENT stack vector is shorter
-than the desired one; the two `expect`s / slice starts on the heap side. -/
+than the desired one; the two `expect`s / slice starts on the heap side.
+The stack comparison exists in two shapes selected by the generated flag `Gen.rollbackSlicesCurrentStackToSp`
+(the translator recognises the text of today's code and of the proposed repair, nothing else). -/
 def Mem.collectRollbackData (cur desired : Mem) : Except Err (Option RollbackData) :=
   if cur.eqAccessible M desired then .ok none
   else
     let sp := desired.stackLen
     let hp := desired.hp
     if hp < cur.hp then .error .RustPanic
-    else if sp > cur.stackLen then .error .RustPanic
+    else if Gen.rollbackSlicesCurrentStackToSp && decide (sp > cur.stackLen) then .error .RustPanic
     else
-      let stackChanges := getChanges cur.stack desired.stack 0 sp
+      let stackChanges :=
+        if Gen.rollbackSlicesCurrentStackToSp then
+          -- today's code: `get_changes(&self.stack[..sp], &desired.stack[..sp], 0)`
+          getChanges cur.stack desired.stack 0 sp
+        else
+          -- repaired code (repo-patches/fix-C23-rollback-short-stack.diff): common prefix, then the missing
+          -- tail of the current stack compared as zeroes (`rollback` resizes the stack with zeroes first)
+          let common := min sp cur.stackLen
+          getChanges cur.stack desired.stack 0 common ++
+            (if common < sp then getChanges (fun _ => 0) (fun i => desired.stack (common + i)) common (sp - common)
+             else [])
       if hp < cur.heapOffset M then .error .RustPanic
       else
         let hs := hp - cur.heapOffset M
